@@ -426,6 +426,16 @@ def run_property(prop, tier, overrides=None, repo=None):
             _lints.declared_types_keep_values(ctx, rel_)
         if rel_ in ctx._cache:
             _lints.none_distinction_kept(ctx, rel_)
+        if rel_.endswith(".py") and rel_ in ctx._cache:
+            # the repository-wide lints (allow-lists: nothing on today's tree, whatever module) for every module the property reads -
+            # a helper that belongs to another property's files is watched all the same
+            _lints.optional_numbers_tested_for_none(ctx, rel_, "R0.optional-value-tested-for-none", 0)
+            _lints.iterators_consumed_once(ctx, rel_, "R0.iterator-read-once")
+            _lints.loop_updates_kept(ctx, rel_, "R0.loop-updates-kept", 0)
+            _lints.integer_tests_accept_numpy(ctx, rel_, "R0.integer-test-accepts-numpy", 0)
+            _lints.dtype_family_tests(ctx, rel_, "R0.dtype-family-test", 0)
+            _lints.alphabets_compared_by_value(ctx, rel_, "R0.alphabet-compared-by-value", 0)
+            _lints.lookup_results_tested_for_none(ctx, rel_, "R0.lookup-found-is-not-none", 0)
     return ctx, mod
 
 
